@@ -49,7 +49,7 @@ NAN = R.NAN
 C_TOL = 8
 
 LEAN = {'C01': ['MlModel.Properties.C01.Rolling'],
-        'C07': ['MlModel.Properties.C07.Rolling'],
+        'C07': ['MlModel.Properties.C07.Rolling', 'MlModel.Properties.C07.RollingCond'],
         'C11': ['MlModel.Properties.C11.Rolling']}
 
 TOL_RULE = ('conditioning: float64 result vs the exact rational statistics of the (dyadic) inputs; per column with n '
@@ -440,6 +440,23 @@ def nontrivial(case, obs):
   return R.SPECS[case['metric']].size(case['whole']) >= 2
 
 
+def margin(case, obs):
+  """max over all reported numbers of |error| / tolerance (1.0 = at the limit) - for the evidence"""
+  worst = 0.0
+  for name, res in obs['results'].items():
+    for r, d in zip(res, case['data'][name]):
+      if not isinstance(r, dict) or 'err' in r:
+        continue
+      want, tol, _ = expected(case['metric'], d)
+      for k in tol:
+        for a, b, t in zip(r.get(k, []), want[k], tol[k]):
+          if isinstance(a, float) and isinstance(b, float):
+            t = t + 2 * EPS * abs(b)
+            if t > 0:
+              worst = max(worst, abs(a - b) / t)
+  return worst
+
+
 def finding(case, what):
   for ds in case['data'].values():
     for d in ds:
@@ -497,6 +514,18 @@ def _sub(pid, builder, n_quick, n_thorough, what):
       if missing:
         from harness.core import InfraError
         raise InfraError(f'{pid} conditioning: generator missed promised arms {missing}')
+      # how far below the derived tolerance the unchanged code stays (measured on a fresh sample, in-process)
+      class _Quiet:
+        quick, rng = True, ctx.rng
+        corpus = staticmethod(lambda name=None: [])
+        count = staticmethod(lambda *a, **k: None)
+      worst, n = 0.0, 0
+      for c in gen(_Quiet, pid, builder, 60, 60):
+        worst = max(worst, margin(c, run_impl(c)))
+        n += 1
+      ctx.extra_evals += n
+      ctx.notes.append(f'{pid} conditioning: max |error| / derived tolerance over {n} fresh cases = {worst:.3g} '
+                       f'(1.0 would be at the limit; a cancelling variance formula reaches 1e3..1e7)')
 
   Sub.run_impl = staticmethod(run_impl)
   Sub.model_requests = staticmethod(model_requests)
